@@ -8,9 +8,59 @@ import LithiumProofs.Minimize
 namespace Strat
 open Testcase
 
-/-- Invariant rule for one pass.  `P` holds at the top of every iteration, `Q` of every way the
-pass can end (the guard fails, the deadline passed, a `ValueError` exit after a skip or after a
-proposal, a failed `assert`, and — for the executable model only — running out of fuel). -/
+/-- Invariant rule for one pass, with the reason of every exit available.  `P` holds at the top of
+every iteration, `Q` of every way the pass can end: the guard fails, the deadline passed, a
+`ValueError` exit after a skip or after a proposal, a failed `assert`, and — for the executable
+model only — running out of fuel. -/
+theorem pLoop_induct_exits {σ : Type} (pd : PassDef σ) (o : Oracle) (clk : Clock) (stopAt : Option Nat)
+    (P : σ → It → Bool → Prop) (Q : It → Bool → Prop)
+    (hguard : ∀ st it any, P st it any → pd.guard st it = false → Q it any)
+    (hdead : ∀ st it any, P st it any → pd.guard st it = true → deadlinePassed stopAt clk it = true → Q it any)
+    (hfuel : ∀ st it any, P st it any → Q { it with outOfFuel := true } any)
+    (hfail : ∀ st it any, P st it any → pd.guard st it = true → pd.act st it = .fail →
+      Q { it with internalError := true } any)
+    (hskip : ∀ st it any, P st it any → pd.guard st it = true → deadlinePassed stopAt clk it = false →
+      pd.act st it = .skip →
+      (pd.next st none = none → Q it any) ∧ ∀ st', pd.next st none = some st' → P st' it any)
+    (htry : ∀ st it any c mk, P st it any → pd.guard st it = true → deadlinePassed stopAt clk it = false →
+      pd.act st it = .propose c mk →
+      (pd.next st (some (it.try o c mk).1) = none →
+        Q (it.try o c mk).2 (any || ((it.try o c mk).1 == .accepted))) ∧
+      ∀ st', pd.next st (some (it.try o c mk).1) = some st' →
+        P st' (it.try o c mk).2 (any || ((it.try o c mk).1 == .accepted))) :
+    ∀ (fuel : Nat) (st : σ) (it : It) (any : Bool), P st it any →
+      Q (pLoop pd o clk stopAt fuel st it any).1 (pLoop pd o clk stopAt fuel st it any).2 := by
+  intro fuel
+  induction fuel with
+  | zero => intro st it any h; exact hfuel st it any h
+  | succ f ih =>
+    intro st it any h
+    unfold pLoop
+    by_cases hg : pd.guard st it = true
+    · simp only [hg, Bool.not_true, Bool.false_eq_true, if_false]
+      by_cases hd : deadlinePassed stopAt clk it = true
+      · simp only [hd, if_true]; exact hdead st it any h hg hd
+      · have hd' : deadlinePassed stopAt clk it = false := by simpa using hd
+        simp only [hd', Bool.false_eq_true, if_false]
+        cases hact : pd.act st it with
+        | fail => exact hfail st it any h hg hact
+        | skip =>
+          simp only
+          obtain ⟨s1, s2⟩ := hskip st it any h hg hd' hact
+          cases hn : pd.next st none with
+          | none => exact s1 hn
+          | some st' => exact ih st' it any (s2 st' hn)
+        | propose c mk =>
+          simp only
+          obtain ⟨t1, t2⟩ := htry st it any c mk h hg hd' hact
+          cases hn : pd.next st (some (it.try o c mk).1) with
+          | none => exact t1 hn
+          | some st' => exact ih st' _ _ (t2 st' hn)
+    · have hg' : pd.guard st it = false := by simpa using hg
+      simp only [hg', Bool.not_false, if_true]
+      exact hguard st it any h hg'
+
+/-- Invariant rule for one pass (exits not distinguished). -/
 theorem pLoop_induct {σ : Type} (pd : PassDef σ) (o : Oracle) (clk : Clock) (stopAt : Option Nat)
     (P : σ → It → Bool → Prop) (Q : It → Bool → Prop)
     (hQ : ∀ st it any, P st it any → Q it any)
@@ -25,35 +75,13 @@ theorem pLoop_induct {σ : Type} (pd : PassDef σ) (o : Oracle) (clk : Clock) (s
       ∀ st', pd.next st (some (it.try o c mk).1) = some st' →
         P st' (it.try o c mk).2 (any || ((it.try o c mk).1 == .accepted))) :
     ∀ (fuel : Nat) (st : σ) (it : It) (any : Bool), P st it any →
-      Q (pLoop pd o clk stopAt fuel st it any).1 (pLoop pd o clk stopAt fuel st it any).2 := by
-  intro fuel
-  induction fuel with
-  | zero => intro st it any h; exact hfuel st it any h
-  | succ f ih =>
-    intro st it any h
-    unfold pLoop
-    by_cases hg : pd.guard st it = true
-    · simp only [hg, Bool.not_true, Bool.false_eq_true, if_false]
-      by_cases hd : deadlinePassed stopAt clk it = true
-      · simp only [hd, if_true]; exact hQ st it any h
-      · have hd' : deadlinePassed stopAt clk it = false := by simpa using hd
-        simp only [hd', Bool.false_eq_true, if_false]
-        cases hact : pd.act st it with
-        | fail => exact hfail st it any h hg hact
-        | skip =>
-          simp only
-          cases hn : pd.next st none with
-          | none => exact hQ st it any h
-          | some st' => exact ih st' it any (hskip st it any st' h hg hd' hact hn)
-        | propose c mk =>
-          simp only
-          obtain ⟨t1, t2⟩ := htry st it any c mk h hg hd' hact
-          cases hn : pd.next st (some (it.try o c mk).1) with
-          | none => exact t1
-          | some st' => exact ih st' _ _ (t2 st' hn)
-    · have hg' : pd.guard st it = false := by simpa using hg
-      simp only [hg', Bool.not_false, if_true]
-      exact hQ st it any h
+      Q (pLoop pd o clk stopAt fuel st it any).1 (pLoop pd o clk stopAt fuel st it any).2 :=
+  pLoop_induct_exits pd o clk stopAt P Q (fun st it any h _ => hQ st it any h) (fun st it any h _ _ => hQ st it any h)
+    hfuel hfail
+    (fun st it any h hg hd ha => ⟨fun _ => hQ st it any h, fun st' hn => hskip st it any st' h hg hd ha hn⟩)
+    (fun st it any c mk h hg hd ha =>
+      have k := htry st it any c mk h hg hd ha
+      ⟨fun _ => k.1, k.2⟩)
 
 /-- Fuel and test-count rule for one pass: when a state invariant `I` is kept by `next`, rules out
 a failing `assert`, and a measure `mu` strictly decreases with every `next`, then `mu + 1` units of
@@ -111,7 +139,8 @@ theorem pairsOuter_induct (cfg : Cfg) (clk : Clock) (stopAt : Option Nat)
     (pass : Nat → It → It × Bool) (final : Nat) (P : Nat → It → Prop) (Q : It → Prop)
     (hfuel : ∀ cs it, P cs it → Q { it with outOfFuel := true })
     (hbad : ∀ cs it, P cs it → ((pass cs it).1.outOfFuel || (pass cs it).1.internalError) = true → Q (pass cs it).1)
-    (hdead : ∀ cs it, P cs it → Q { (pass cs it).1 with deadlineStop := true })
+    (hdead : ∀ cs it, P cs it → deadlinePassed stopAt clk (pass cs it).1 = true →
+      Q { (pass cs it).1 with deadlineStop := true })
     (hend : ∀ cs it, P cs it → ((pass cs it).1.outOfFuel || (pass cs it).1.internalError) = false →
       deadlinePassed stopAt clk (pass cs it).1 = false → cs ≤ final →
       ((pass cs it).2 && (cfg.rep == .always || (cfg.rep == .last && decide (cs ≤ final)))) = false → Q (pass cs it).1)
@@ -132,7 +161,7 @@ theorem pairsOuter_induct (cfg : Cfg) (clk : Clock) (stopAt : Option Nat)
     · have hflag' : ((pass cs it).1.outOfFuel || (pass cs it).1.internalError) = false := by simpa using hflag
       rw [if_neg hflag]
       by_cases hd : deadlinePassed stopAt clk (pass cs it).1 = true
-      · rw [if_pos hd]; exact hdead cs it h
+      · rw [if_pos hd]; exact hdead cs it h hd
       · have hd' : deadlinePassed stopAt clk (pass cs it).1 = false := by simpa using hd
         rw [if_neg hd]
         by_cases hr : ((pass cs it).2 && (cfg.rep == .always || (cfg.rep == .last && decide (cs ≤ final)))) = true
